@@ -63,7 +63,9 @@ Reparameterised(rep, tol) == rep >= 0 /\ rep <= tol
 (* length, lip = lip[1]/lip[2] the speed bound the parameterisation has by construction *)
 (* (chords and the length d3 in units of 1e-3 so that the products stay 32-bit).  The   *)
 (* pitch of every interpolant stays in the pitch range (pex: excess in nano-radians)    *)
-(* up to the resolution res of the underlying planar Dubins code.                       *)
+(* up to the resolution res of the underlying planar Dubins code, its heading in        *)
+(* [-pi, pi) (flags; the position may leave its box, as planar Dubins curves do: that   *)
+(* is the general in-bounds law).                                                       *)
 AtLeastStraightLine(d, e, tol) == d + tol >= e
 IsPathLength(d, plen, tol) == Within(d, plen, tol)
 NoJumps(cks, chord, d3, lip, tol3) ==
